@@ -94,6 +94,8 @@ pub struct RunOpts {
     /// stdout of the tool is a pseudo terminal (raw mode, so the bytes arrive unchanged) instead of a pipe: what is
     /// printed must not depend on whether somebody is watching
     pub tty: bool,
+    /// leave out `-c bitcoin` (Bitcoin is the documented default coin); ignored for other coins
+    pub default_coin: bool,
 }
 
 /// the clock shim built by `vp setup` (None when it is missing)
@@ -104,7 +106,7 @@ pub fn clock_lib() -> Option<PathBuf> {
 
 impl RunOpts {
     pub fn new(coin: Coin, callback: Callback) -> RunOpts {
-        RunOpts { coin, start: None, end: None, verify: false, callback, threads: None, fsize: None, nofile: None, pin: false, inject: None, trace: None, trace_paths: vec![], timeout_s: std::env::var("VP_TIMEOUT").ok().and_then(|v| v.parse().ok()).unwrap_or(90), verbose: 0, path_style: 0, bin: None, pause_on: None, clock_offset: None, tty: false }
+        RunOpts { coin, start: None, end: None, verify: false, callback, threads: None, fsize: None, nofile: None, pin: false, inject: None, trace: None, trace_paths: vec![], timeout_s: std::env::var("VP_TIMEOUT").ok().and_then(|v| v.parse().ok()).unwrap_or(90), verbose: 0, path_style: 0, bin: None, pause_on: None, clock_offset: None, tty: false, default_coin: false }
     }
 }
 
@@ -294,7 +296,11 @@ fn run_tool_once(datadir: &Path, dump: &Path, o: &RunOpts) -> Result<RunOut, Str
             }
         }
     }
-    let mut args: Vec<String> = vec!["-d".into(), dstr, "-c".into(), o.coin.cli().into()];
+    let mut args: Vec<String> = vec!["-d".into(), dstr];
+    if !(o.default_coin && o.coin == Coin::Bitcoin) {
+        args.push("-c".into());
+        args.push(o.coin.cli().into());
+    }
     if let Some(s) = o.start {
         args.push("-s".into());
         args.push(s.to_string());
